@@ -37,11 +37,11 @@ func c03Kinds() []c03Kind {
 		{"Int32", KInt, reflect.TypeOf(int32(0)), func(o ...z.SchemaOption) z.ZogSchema { return z.Int32(o...) }, func(v any) (any, bool) {
 			n := v.(int)
 			return int32(n), int(int32(n)) == n
-		}, int32(4242), nil},
-		{"Int64", KInt, reflect.TypeOf(int64(0)), func(o ...z.SchemaOption) z.ZogSchema { return z.Int64(o...) }, func(v any) (any, bool) { return int64(v.(int)), true }, int64(4242), nil},
+		}, int32(4242), func(c conf.CoercerFunc) func() { old := conf.Coercers.Int; conf.Coercers.Int = c; return func() { conf.Coercers.Int = old } }},
+		{"Int64", KInt, reflect.TypeOf(int64(0)), func(o ...z.SchemaOption) z.ZogSchema { return z.Int64(o...) }, func(v any) (any, bool) { return int64(v.(int)), true }, int64(4242), func(c conf.CoercerFunc) func() { old := conf.Coercers.Int; conf.Coercers.Int = c; return func() { conf.Coercers.Int = old } }},
 		{"Float64", KFloat, reflect.TypeOf(0.0), func(o ...z.SchemaOption) z.ZogSchema { return z.Float64(o...) }, id, 42.5,
 			func(c conf.CoercerFunc) func() { old := conf.Coercers.Float64; conf.Coercers.Float64 = c; return func() { conf.Coercers.Float64 = old } }},
-		{"Float32", KFloat, reflect.TypeOf(float32(0)), func(o ...z.SchemaOption) z.ZogSchema { return z.Float32(o...) }, func(v any) (any, bool) { return float32(v.(float64)), true }, float32(42.5), nil},
+		{"Float32", KFloat, reflect.TypeOf(float32(0)), func(o ...z.SchemaOption) z.ZogSchema { return z.Float32(o...) }, func(v any) (any, bool) { return float32(v.(float64)), true }, float32(42.5), func(c conf.CoercerFunc) func() { old := conf.Coercers.Float64; conf.Coercers.Float64 = c; return func() { conf.Coercers.Float64 = old } }},
 		{"Bool", KBool, reflect.TypeOf(false), func(o ...z.SchemaOption) z.ZogSchema { return z.Bool(o...) }, id, true,
 			func(c conf.CoercerFunc) func() { old := conf.Coercers.Bool; conf.Coercers.Bool = c; return func() { conf.Coercers.Bool = old } }},
 		{"Time", KTime, reflect.TypeOf(time.Time{}), func(o ...z.SchemaOption) z.ZogSchema { return z.Time(o...) }, id, time.Date(2000, 1, 2, 3, 4, 5, 0, time.UTC),
@@ -135,8 +135,12 @@ func c03Scenario(ki int) mc.Scenario {
 			leaf = k.mk(z.WithCoercer(custom))
 		case opt == 2:
 			g := custom
-			if k.name == "Int" {
+			switch k.name {
+			case "Int", "Int32", "Int64":
+				// the narrower integer schemas read the process-wide Int coercer when they run and narrow its result
 				g = func(data any) (any, error) { return 4242, nil }
+			case "Float32":
+				g = func(data any) (any, error) { return 42.5, nil }
 			}
 			restore = k.setGlobal(g)
 			leaf = k.mk()
